@@ -137,6 +137,7 @@ macro_rules! prime_field_machine {
                         let l = if t.chance(3, 4) { el } else { len_biased(t, el) };
                         let mut b = bytes_biased(t, rng, l);
                         if t.chance(1, 3) {
+                            out.probe("probe.apitrace.decode_modulus_neighbour");
                             // neighbours of the modulus itself: p-3 .. p+3 (p-1 comes from the type's own arithmetic)
                             b = (<T>::ZERO - <T>::ONE).encode().to_vec();
                             let k = t.usize(7);
@@ -264,6 +265,7 @@ macro_rules! prime_field_machine {
 /// Operations that only some of the field types have (the same set in every backend of that type).
 macro_rules! extra_ops {
     (@sqrt_ext $T:ty, $name:expr, $a:expr, $out:expr) => {{
+        $out.probe("probe.apitrace.sqrt_ext");
         let (y, st) = $a.sqrt_ext();
         status!($out, concat!($name, ".sqrt_ext"), st);
         // a non-residue yields a root of -x, 2x or -2x: which one is backend business, that it is one of them is not
@@ -275,6 +277,7 @@ macro_rules! extra_ops {
         if st != 0 { y } else { $a }
     }};
     (@enc32 $T:ty, $name:expr, $a:expr, $t:expr, $rng:expr, $out:expr) => {{
+        $out.probe("probe.apitrace.encode32_decode32");
         let e = $a.encode32();
         let l = if $t.chance(3, 4) { 32 } else { len_biased($t, 32) };
         let b = bytes_biased($t, $rng, l);
@@ -313,6 +316,7 @@ macro_rules! extra_ops {
             5..=7 => {
                 // "not reduced" intermediates: only what the documentation allows is done with them
                 // (operand of a multiplication, square, xsquare); the reduced results are transcript material
+                $out.probe("probe.apitrace.noreduce_family");
                 let c3 = $regs[$t.usize($regs.len())];
                 let which = $t.usize(6);
                 let (u, v) = match which {
@@ -333,6 +337,7 @@ macro_rules! extra_ops {
             }
             k => {
                 // constant-time table lookups; an index outside 0..=15 must give zeros
+                $out.probe("probe.apitrace.gf255_table_lookup");
                 let n = if k == 3 { 48 } else { 64 };
                 let tab: Vec<$T> = (0..n).map(|i| $regs[i % $regs.len()] + <$T>::from_u32(i as u32)).collect();
                 let j = match $t.usize(8) {
@@ -503,6 +508,7 @@ macro_rules! pex {
             }
             1 => {
                 // x-only sequences (the machinery behind truncated verification), public data
+                $out.probe("probe.apitrace.p256_x_sequence");
                 let (x0, x1, xq) = Point::to_x_affine_diff($p, $q);
                 let n = $t.usize(7);
                 let mut xx = vec![crrl::field::GFp256::ZERO; n];
@@ -530,6 +536,7 @@ macro_rules! pex {
         match $t.usize(2) {
             0 => {
                 let k = ((word($t, $rng) as u128) << 64) | word($t, $rng) as u128;
+                $out.probe("probe.apitrace.jq255_mul128");
                 $out.ev(format_args!("{} mul128_add_mulgen_vartime({:#x})", $name, k));
                 $p.mul128_add_mulgen_vartime(k, &$s)
             }
@@ -549,6 +556,7 @@ macro_rules! pex {
             }
             2 => {
                 // which valid split is returned is the backend's business; that it is valid (and odd) is not
+                $out.probe("probe.apitrace.gls254_split_mu");
                 let odd = $t.chance(1, 2);
                 let (n0, s0, n1, s1) = if odd { Point::split_mu_odd(&$s) } else { Point::split_mu(&$s) };
                 status!($out, concat!($name, ".split_mu.sign0"), s0);
@@ -724,6 +732,7 @@ fn m_gfb(t: &mut Tape, rng: &mut SimRng, out: &mut RunOut, nops: usize) {
             }
             24 | 25 => {
                 // constant-time table lookups; out-of-range indices must give zeros (except _nocheck, in range only)
+                out.probe("probe.apitrace.gfb254_table_lookup");
                 let tab: Vec<GFb254> = (0..32).map(|i| r254[i % r254.len()] + GFb254::from_b127(r127[i % r127.len()], GFb127::ONE)).collect();
                 let kind = t.usize(4);
                 let span: u32 = [16, 8, 4, 4][kind];
